@@ -12,8 +12,10 @@ import vlib
 from props import c15
 
 THEOREMS = ['Libvna.LU.' + t for t in ('sum_split3', 'lu_of_recurrence', 'forward_subst', 'back_subst', 'solve_correct', 'det_of_lu',
-                                      'zero_pivot_singular', 'nonzero_pivots_nonsingular')]
-FILES = ['Model/LinAlg.lean', 'Props/C19.lean']
+                                      'zero_pivot_singular', 'nonzero_pivots_nonsingular')] + \
+    ['Libvna.LULoop.' + t for t in ('get_set', 'dotSub_eq', 'upper_spec', 'lower_spec', 'swapRows_spec', 'scaleCol_spec', 'col_step_fun',
+                                    'colStep_spec', 'luLoop_inv', 'luLoop_full', 'lu_factors', 'lu_det')]
+FILES = ['Model/LinAlg.lean', 'Props/C19.lean', 'Props/C19Loop.lean']
 LD = np.clongdouble
 
 
@@ -83,7 +85,7 @@ def run(chk):
     rng = random.Random(chk.seed * 104729 + 19)
     broken = []
     if THEOREMS:
-        c15.proof_side(chk, ['Libvna.Props.C19'], THEOREMS, FILES, broken)
+        c15.proof_side(chk, ['Libvna.Props.C19', 'Libvna.Props.C19Loop'], THEOREMS, FILES, broken)
     chk.trusted += ['Props/C19.lean is partial: the step from the imperative loops to the recurrences is tied by correspondence only',
                     'backward stability / rounding: measured (row-wise relative residual in extended precision), not proved']
     chk.checker_cmd = 'cd lean && lake build Libvna.Props.C19 && #print axioms'
